@@ -82,6 +82,47 @@ def run(ctx, res):
             res.add(Finding("C15.R1", fshort(b), "list-renders:" + key, "list does not render exactly the markers of build_remove_marker (each tagged ready, none filtered): %s" % t[:400], loc=T.loc(b["tree"])))
     remove_deletes_markers(ctx, res, "C15.R1")
     purity.library_purity(ctx, res, "C15.R2")
+    marker_list_append_only(ctx, res, "C15.R3")
+
+
+def marker_list_append_only(ctx, res, rule):
+    """One list item per element: merge_markers only ever *appends* to the list it builds.  An entry that is already in the
+    list is the region of another element (or of an earlier half) and is never widened, merged or dropped afterwards."""
+    P = ctx.lib
+    b = P.fn("Remover::merge_markers")
+    fn = fshort(b)
+    loc = T.loc(b["tree"])
+    accs = set()
+    for n in T.nodes(b["tree"], "mcall"):
+        if n["name"] == "fold" and len(n["args"]) == 2:
+            clo = T.peel(n["args"][1])
+            if clo.get("k") == "closure" and clo["params"] and clo["params"][0]["pat"].get("p") == "bind":
+                accs.add(clo["params"][0]["pat"]["id"])
+    for s_ in T.nodes(b["tree"], "let"):
+        if s_["pat"].get("p") == "bind" and "Mut" in s_["pat"].get("mode", "") and "Vec<(std::ops::Range<usize>, std::option::Option<usize>)>" in (s_.get("pty") or ""):
+            accs.add(s_["pat"]["id"])
+    if not accs:
+        res.cannot(rule, fn, "accumulator", "the list that merge_markers builds was not found", loc)
+        return
+    ok_methods = {"push", "extend", "len", "is_empty", "append", "extend_from_slice", "reserve", "capacity"}
+    n_ok = 0
+    for n, parents in T.walk(b["tree"]):
+        if n.get("k") == "mcall" and T.local_of(T.peel_ref(n["recv"])) in accs:
+            if n["name"] in ok_methods:
+                n_ok += 1
+            else:
+                res.add(Finding(rule, fn, "list-op:" + n["name"], "the marker list is modified through `%s`: an entry already in the list (the region of another element) "
+                                "can be changed or dropped, so the list no longer has one item per element / half" % T.render(n)[:80], loc=T.loc(n)))
+        if n.get("k") in ("assign", "assign_op"):
+            l = T.peel(n["l"])
+            root = l
+            while root.get("k") in ("field", "index") or (root.get("k") == "unary" and root.get("op") == "*"):
+                root = T.peel(root.get("base") or root.get("e"))
+            if T.local_of(root) in accs and l is not root:
+                res.add(Finding(rule, fn, "list-assign:" + T.render(n)[:50], "an entry of the marker list is assigned to: `%s`" % T.render(n)[:80], loc=T.loc(n)))
+    if n_ok:
+        res.holds(rule, fn, "append-only", "%d uses of the list: push / extend / len only" % n_ok)
+    res.floor(rule, "appends to the marker list", n_ok, 3)
 
 
 def remove_deletes_markers(ctx, res, rule):
